@@ -1,4 +1,5 @@
 import KoordVerif.Model.C20
+import KoordVerif.Model.C20Hist
 import KoordVerif.Generated.C20
 /-
 Tie lemmas for C20: the guard structure extracted from /repo's current source
@@ -27,5 +28,26 @@ theorem tie_mergecfg_direction : C20.mergeCfgShape = ["new", "old", "old"] := by
 
 /-- syncConfig(nil) installs DefaultSLOCfg() — `sync d st none = Cfg.default d`. -/
 theorem tie_deleted_configmap : C20.deletedInstallsDefault = true := by decide
+
+/-! ### delivery path (Model/C20Hist.lean) -/
+
+/-- Reconcile: the only Client.Update of the NodeSLO is guarded by `!reflect.DeepEqual(new, &stored.Spec)` on the WHOLE
+    spec (new = the result of getNodeSLOSpec) and its body stores the new spec — `reconcileCore`'s `if new = old`. -/
+theorem tie_reconcile_write_guard :
+    C20.reconcileWriteGuard = ["!reflect.DeepEqual", "new", "&stored.Spec", "stores-new:true"] := by decide
+
+/-- EnqueueRequestForConfigMap.Update: name filter, skip iff reflect.DeepEqual on the WHOLE Data maps of the new and the
+    old object, then SyncCacheIfChanged, then EnqueueRequest — `hstep … (.cmUpdate i)`. -/
+theorem tie_cm_update_routing :
+    C20.cmUpdateShape = ["name", "skip-if reflect.DeepEqual(new.Data, old.Data)", "sync", "enqueue"] := by decide
+
+/-- Create: type check, name filter, SyncCacheIfChanged, EnqueueRequest — `cmSync`; Delete has an empty body. -/
+theorem tie_cm_create_delete_routing :
+    C20.cmCreateShape = ["type", "name", "sync", "enqueue"] ∧ C20.cmDeleteStmts = 0 := by decide
+
+/-- updateCacheIfChanged: the returned flag is `!reflect.DeepEqual(cache, new)`; `available` is set on every call —
+    `syncIfChanged`. -/
+theorem tie_cache_changed_flag :
+    C20.cacheChangedExpr = "changed := !reflect.DeepEqual(cache, new)" ∧ C20.availableSetUnconditionally = true := by decide
 
 end KoordVerif.C20
